@@ -346,6 +346,15 @@ func condAtom(v ssa.Value) (atom, bool, bool) { // atom, negated, ok
 				}
 			}
 		}
+	case *ssa.Lookup: // `readActionNames[lastSegment]`: membership in a package-level table of constant names
+		if names, ok := constNameSet(x.X); ok && !x.CommaOk {
+			switch {
+			case isLastSegment(x.Index):
+				return atom{"last-in", strings.Join(names, "\x1f")}, false, true
+			case isReqField(x.Index, "Path"):
+				return atom{"path-in", strings.Join(names, "\x1f")}, false, true
+			}
+		}
 	case *ssa.Call:
 		if list, ok := prefixListTest(x); ok {
 			return atom{"prefix-any", strings.Join(list, "\x1f")}, false, true
@@ -480,7 +489,7 @@ func (w *World) extractPolicy(r *Report) ([]policyPath, *ssa.Function) {
 			}
 			return
 		}
-		a, neg, ok := condAtom(iff.Cond)
+		a, neg, ok := condAtom(followPhis(iff.Cond, trail))
 		if !ok {
 			dfs(b.Succs[0], trail, lits, onStack)
 			dfs(b.Succs[1], trail, lits, onStack)
@@ -572,6 +581,21 @@ func evalAtom(a atom, method, pattern string) int {
 			}
 		}
 		return triMaybe
+	case "last-in", "path-in":
+		res := triFalse
+		kind := "last=="
+		if a.kind == "path-in" {
+			kind = "path=="
+		}
+		for _, one := range strings.Split(a.arg, "\x1f") {
+			switch evalAtom(atom{kind, one}, method, pattern) {
+			case triTrue:
+				return triTrue
+			case triMaybe:
+				res = triMaybe
+			}
+		}
+		return res
 	case "prefix-any":
 		res := triFalse
 		for _, one := range strings.Split(a.arg, "\x1f") {
@@ -1585,7 +1609,7 @@ func enumerateRolePaths(g *ssa.Function) []policyPath {
 			}
 			return
 		}
-		a, neg, ok := condAtom(iff.Cond)
+		a, neg, ok := condAtom(followPhis(iff.Cond, trail))
 		if !ok {
 			dfs(b.Succs[0], trail, lits, onStack)
 			dfs(b.Succs[1], trail, lits, onStack)
@@ -1596,4 +1620,98 @@ func enumerateRolePaths(g *ssa.Function) []policyPath {
 	}
 	dfs(g.Blocks[0], nil, nil, map[*ssa.BasicBlock]bool{})
 	return out
+}
+
+// constNameSet: v is the load of a package-level map[string]bool that is filled once, in the package initialiser, with
+// constant keys mapped to true, and that no function of the package writes to: the keys.
+func constNameSet(v ssa.Value) ([]string, bool) {
+	ld, ok := v.(*ssa.UnOp)
+	if !ok || ld.Op != token.MUL {
+		return nil, false
+	}
+	g, ok := ld.X.(*ssa.Global)
+	if !ok || g.Pkg == nil {
+		return nil, false
+	}
+	mt, ok := g.Type().(*types.Pointer).Elem().Underlying().(*types.Map)
+	if !ok || !isBoolType(mt.Elem()) {
+		return nil, false
+	}
+	var names []string
+	var made ssa.Value
+	for _, mem := range g.Pkg.Members {
+		fn, ok := mem.(*ssa.Function)
+		if !ok {
+			continue
+		}
+		for _, f := range append([]*ssa.Function{fn}, closuresOf(fn)...) {
+			for _, b := range f.Blocks {
+				for _, in := range b.Instrs {
+					switch x := in.(type) {
+					case *ssa.Store:
+						if x.Addr == ssa.Value(g) {
+							if f.Name() != "init" || made != nil {
+								return nil, false // assigned outside the initialiser, or twice
+							}
+							made = x.Val
+						}
+					case *ssa.MapUpdate:
+						if lv, ok := x.Map.(*ssa.UnOp); ok && lv.Op == token.MUL && lv.X == ssa.Value(g) {
+							return nil, false // written through the variable at run time
+						}
+					}
+				}
+			}
+		}
+	}
+	mk, ok := made.(*ssa.MakeMap)
+	if !ok || mk.Referrers() == nil {
+		return nil, false
+	}
+	for _, ref := range *mk.Referrers() {
+		switch x := ref.(type) {
+		case *ssa.MapUpdate:
+			k, isK := stringOf(x.Key)
+			c, isC := x.Value.(*ssa.Const)
+			if !isK || !isC || c.Value == nil || c.Value.Kind() != constant.Bool {
+				return nil, false
+			}
+			if constant.BoolVal(c.Value) {
+				names = append(names, k)
+			}
+		case *ssa.Store:
+		default:
+			return nil, false
+		}
+	}
+	sort.Strings(names)
+	return names, len(names) > 0
+}
+
+// followPhis: the value a phi stands for on this trail (the edge taken into its block), through nested phis and NOT;
+// anything else is returned as it is.
+func followPhis(v ssa.Value, trail []*ssa.BasicBlock) ssa.Value {
+	for depth := 0; depth < 20; depth++ {
+		x, ok := v.(*ssa.Phi)
+		if !ok {
+			return v
+		}
+		b := x.Block()
+		next := ssa.Value(nil)
+		for i := len(trail) - 1; i > 0 && next == nil; i-- {
+			if trail[i] == b {
+				for pi, p := range b.Preds {
+					if p == trail[i-1] {
+						next = x.Edges[pi]
+						trail = trail[:i]
+					}
+				}
+			}
+		}
+		if next == nil {
+			return v
+		}
+		v = next
+	}
+	return v
 }
